@@ -187,6 +187,27 @@ static void prop_rs(Tape &t, Ctx &c) {
 }
 
 // ---------------------------------------------------------------- 2. constructed special cases (need the private key)
+// valid signatures with a tiny s, and the same with r/s shifted by multiples of n that stay below the field prime or the
+// coordinate size: catches range checks against the wrong bound (s < p instead of s < n) which random signatures never reach
+static void prop_small_s(Tape &t, Ctx &c) {
+    KeyHolder kh(pick_key(t)); EKey *k = kh.k; ox::CurveId cv = k->c;
+    B ksel = tape_bytes(t, 16); ksel.resize(ox::curve_size(cv), 0x5a);
+    B s_small = t.coin() ? ox::bn_word(1 + t.below(1000)) : tape_bytes(t, 1 + t.below(8));
+    B digest; ox::Sig sg;
+    if (!ox::ecdsa_chosen_s(k->ok, ksel, s_small, digest, sg)) throw Discard();
+    B n = ox::curve_order(cv);
+    int shift = (int) t.below(3);   // 0: as constructed (valid), 1: s + n, 2: s + 2n
+    for (int i = 0; i < shift; i++) sg.s = ox::bn_add(sg.s, n);
+    bool expected = oracle(c, k, digest, sg);
+    VF_CHECK(expected == (shift == 0), "harness", "chosen-s construction gives unexpected validity shift=%d", shift);
+    B der = der_sig(sg); int entry = (int) t.below(2); bool use_pub = t.coin();
+    int got = mx_verify(k, use_pub, entry, ox::H_SHA256, B{ 1 }, digest, der);
+    c.count(fmt("small-s:+%dn", shift)); c.count(std::string("curve:") + ox::curve_name(cv));
+    c.nontrivial(fmt("ss:%s:%d:%d:%zu", ox::curve_name(cv), shift, entry, s_small.size()));
+    c.sample(fmt("small-s curve=%s key=%s s=%s shift=%d expected=%d got=%d", ox::curve_name(cv), k->name.c_str(), hx(s_small, 20).c_str(), shift, (int) expected, got));
+    judge(c, shift ? "small-s-plus-multiple-of-n" : "small-s", k, entry, expected, got, digest, sg, der);
+}
+
 static void prop_special(Tape &t, Ctx &c) {
     KeyHolder kh(pick_key(t)); EKey *k = kh.k;
     int kind = (int) t.below(2); B tsel = tape_bytes(t, 8), rsel = tape_bytes(t, 8); tsel.resize(ox::curve_size(k->c), 0x77); rsel.resize(ox::curve_size(k->c), 0x99);
@@ -310,7 +331,8 @@ static void prop_der(Tape &t, Ctx &c) {
 static void prop(Tape &t, Ctx &c) {
     ent_seed(t.u32());
     unsigned m = (unsigned) t.below(100);
-    if (m < 50) prop_rs(t, c);
+    if (m < 44) prop_rs(t, c);
+    else if (m < 50) prop_small_s(t, c);
     else if (m < 62) prop_special(t, c);
     else if (m < 76) prop_sign(t, c);
     else prop_der(t, c);
